@@ -131,7 +131,8 @@ def run(ctx, rep):
     rep.floor('legacy-opcodes-summarised', n, 140)
     check_outcome_push(fx, rep)
     check_wiring(fx, rep)
-    # R3: the specification's other decidable parts are the rule sets of the properties below; a
+    check_early_exits(fx, rep)
+    # R4: the specification's other decidable parts are the rule sets of the properties below; a
     # transaction executes as specified only if they hold too, so they run as part of this check
     import engine
     engine.run_included(ctx, rep, INCLUDED_QUICK + (INCLUDED_THOROUGH if ctx.tier == 'thorough' else ()))
@@ -370,6 +371,55 @@ def check_frame_kinds(fx, rep):
         else:
             rep.violation('R2-wiring', 'kind:' + nm, '%s builds %s; every frame and every early result it returns must be of kind `%s` (a result of another kind is routed to the wrong return handler and inspector stack)' % (nm, sorted(used), kind), f.where())
     return n
+
+
+CLEAN_EXITS = {
+    # early results a CALL/CREATE answers with before anything of the caller's state is touched: the
+    # caller's frame is not reverted afterwards, so whatever was journaled before these exits stays.
+    'make_call_frame': ('CallTooDeep',),
+    'make_create_frame': ('CallTooDeep', 'OutOfFunds', 'CreateInitCodeStartingEF00'),
+    'make_eofcreate_frame': ('CallTooDeep', 'OutOfFunds'),
+}
+JOURNAL_WRITERS = {'inc_nonce', 'transfer', 'touch', 'create_account_checkpoint', 'checkpoint', 'set_code',
+                   'set_code_with_hash', 'sstore', 'tstore', 'selfdestruct', 'log', 'checkpoint_commit', 'checkpoint_revert'}
+
+
+def check_early_exits(fx, rep):
+    """R3: the failed-precondition exits of the frame constructors (depth limit, insufficient balance,
+    EF00 init code) are taken before any journaled write: a CREATE that cannot pay its endowment
+    must leave the creator's nonce alone, a too-deep CALL must not move value."""
+    import re
+    from symx import Symx, Budget, render
+    E = 'revm::context::evm_context::EvmContext::'
+    n = 0
+    for nm, codes in CLEAN_EXITS.items():
+        f = fx.fns.get(E + nm)
+        if f is None:
+            rep.undecided('R3-early-exits', nm, 'not found')
+            continue
+        rep.fn(f)
+        try:
+            rs = Symx(fx, max_paths=6000, snapshot_refs=True).run(f)
+        except Budget:
+            rep.undecided('R3-early-exits', nm, 'path budget', f.where())
+            continue
+        seen = {}
+        for r in rs:
+            m = re.search(r'result: InstructionResult::(\w+)\(\)', render(r.ret))
+            if not m or m.group(1) not in codes:
+                continue
+            wr = [e[0].split('::')[-1] for e in r.events
+                  if ('JournaledState' in e[0] or 'InnerEvmContext' in e[0] or 'EvmContext' in e[0]) and e[0].split('::')[-1] in JOURNAL_WRITERS]
+            seen.setdefault(m.group(1), set()).update(wr)
+        for code in codes:
+            n += 1
+            if code not in seen:
+                rep.violation('R3-early-exits', '%s:%s' % (nm, code), '%s has no exit answering %s (the precondition is not checked before the frame is built)' % (nm, code), f.where())
+            elif seen[code]:
+                rep.violation('R3-early-exits', '%s:%s' % (nm, code), '%s answers %s after %s: the write stays in the caller\'s journal although the call/create did not happen' % (nm, code, sorted(seen[code])), f.where())
+            else:
+                rep.ok('R3-early-exits', '%s:%s' % (nm, code), 'no journaled write before the exit')
+    rep.floor('R3-early-exits', n, 6)
 
 
 def fn_items(f, og, o, depth=0):
